@@ -195,6 +195,13 @@ theorem C05_depth_bound (env : Env) (regs0 : Regs) (pc0 : Nat) (r : List Nat) (h
     simp at this; omega
 
 
+/-- selecting frame k puts the exploration context on the k-th real frame (same hypotheses as the backtrace theorem) -/
+theorem C05_frame_select_ip_partial (env : Env) (regs0 : Regs) (f0 : Frame) (rest : List Frame) (k ip : Nat)
+    (hch : Chain env regs0 (f0 :: rest)) (hd : DistinctReturnAddrs (f0 :: rest))
+    (hk : ((pcs (f0 :: rest)).take maxUnwindDepth)[k]? = some ip) :
+    setFrame env regs0 f0.pc k = .ok ip := by
+  simp [setFrame, C05_backtrace_is_stack_partial env regs0 f0 rest hch hd, hk]
+
 /-! ## Frame selection: the registers handed to variable / argument / register reads of frame k -/
 
 /-- the registers of activation k as the unwinder itself carries them from frame to frame
@@ -434,5 +441,9 @@ theorem C05_frame_info_counterexample : ¬ C05_frame_info_full := by
 /-- non-vacuity of `C05_frame_info_innermost`, on the recursive stack -/
 example : frameInfo Ex.envRec (Ex.regsAt 1000 0 120) 120 120 = .ok { num := 0, cfa := 1016, ret := some 150 } :=
   C05_frame_info_innermost _ _ ⟨120, 1016⟩ ⟨150, 1032⟩ _ Ex.chainRec rfl (by decide)
+
+/-- non-vacuity of `C05_frame_select_ip_partial` -/
+example : setFrame Ex.envPlain (Ex.regsAt 1000 0 120) 120 2 = .ok 550 :=
+  C05_frame_select_ip_partial _ _ ⟨120, 1016⟩ _ 2 550 Ex.chainPlain (by decide) (by decide)
 
 end BsVerif.Unwind
